@@ -101,6 +101,16 @@ func (p *prog) pred(s *step, x *expect) string {
 	return strings.Join(parts, ",")
 }
 
+// tAboveSomeQ reports whether a prime of the chain (other than Q[0]) is smaller than t.
+func (e *env) tAboveSomeQ() bool {
+	for _, q := range e.cf.Q {
+		if q < e.t {
+			return true
+		}
+	}
+	return false
+}
+
 func (p *prog) desc(s *step, x *expect) string {
 	name := s.method
 	if s.newForm {
@@ -192,23 +202,36 @@ func (p *prog) freshCt(level int, scale uint64) *cval {
 	return cv
 }
 
-// newFresh draws a fresh ciphertext inside the budget and checks the baseline (it decodes to m).
+// freshBound is the a-priori worst-case ||m' + T*e||_inf of a fresh encryption (sk: |e| <= B;
+// pk: |u*e_pk + e0 + e1*s| <= (N+1+||s||_1)*B, plus the rounding of the division by P).
+func (e *env) freshBound() *big.Int {
+	E := e.errB
+	if e.cf.Enc == "pk" {
+		E = (int64(e.n)+1+e.s1)*e.errB + (1+e.s1)/2 + 2
+	}
+	return mulB(e.tb, bI(E+2))
+}
+
+// newFresh draws a fresh ciphertext whose a-priori noise bound is inside the budget of its level
+// and checks the baseline (it decodes to m, its measured noise respects the a-priori bound).
 func (p *prog) newFresh() *cval {
 	e := p.e
+	fb := e.freshBound()
+	// keep three bits of head room so that at least additions remain possible
+	fb8 := new(big.Int).Lsh(fb, 3)
 	for try := 0; try < 4; try++ {
 		level := e.maxLvl
 		if try == 0 && p.r.N(10) < 4 {
 			level = p.r.N(e.maxLvl + 1)
 		}
-		cv := p.freshCt(level, p.pickScale())
-		// keep three bits of head room so that at least additions remain possible
-		if !e.budget(new(big.Int).Lsh(cv.V, 3), level) {
+		if !e.budget(fb8, level) {
 			e.c.Count("fresh_out_of_budget", 1)
 			continue
 		}
+		cv := p.freshCt(level, p.pickScale())
 		got := e.decode(cv.ct)
-		if got == nil || !equalU(got, cv.m) {
-			e.c.Violate("C05|baseline|fresh-ciphertext-does-not-decode", fmt.Sprintf("%v level=%d scale=%d noise=2^%.1f Q=2^%.1f", e.cf, level, cv.scale, log2(cv.V), log2(e.Ql[level])), e.cf)
+		if got == nil || !equalU(got, cv.m) || cv.V.Cmp(fb) > 0 {
+			e.c.Violate("C05|baseline|fresh-ciphertext-does-not-decode", fmt.Sprintf("%v level=%d scale=%d noise=2^%.1f a-priori bound 2^%.1f Q=2^%.1f", e.cf, level, cv.scale, log2(cv.V), log2(fb), log2(e.Ql[level])), e.cf)
 			return nil
 		}
 		return cv
@@ -1368,6 +1391,9 @@ func runPrograms(c *eng.Ctx, cf cfg) {
 	}
 	if gap > 1 {
 		c.Count("cases_gap_gt1", 1)
+	}
+	if e.tAboveSomeQ() {
+		c.Count("cases_t_above_some_qi", 1)
 	}
 	c.Count("cases_mode_"+cf.Mode, 1)
 	c.Count("cases_eval_"+cf.Eval, 1)
